@@ -137,12 +137,19 @@ func checkPoint(upper, in string, oligo, na, mg float64) (float64, error) {
 // the same ends, the same prefix. They are evaluated first and their results discarded: a result must depend on the
 // call's own arguments only.
 func siblings(s string) []string {
-	next := func(c byte) byte { return "CGTA"[strings.IndexByte("ACGT", c)&3] }
 	var out []string
+	seen := map[int]bool{}
 	for _, p := range []int{0, len(s) / 2, len(s) - 1} {
-		if p >= 0 && p < len(s) {
+		if p < 0 || p >= len(s) || seen[p] {
+			continue
+		}
+		seen[p] = true
+		for k, o := range "ACGT" {
+			if byte(o) == s[p] || (p != 0 && p != len(s)-1 && k != (strings.IndexByte("ACGT", s[p])+1)&3) {
+				continue // the ends get every other letter, the middle one
+			}
 			b := []byte(s)
-			b[p] = next(b[p])
+			b[p] = byte(o)
 			out = append(out, string(b))
 		}
 	}
